@@ -364,8 +364,6 @@ func (c *Ctx) ruleJSONEscapes(rule string) {
 	}
 }
 
-
-
 func hex2(v int64) string {
 	const d = "0123456789abcdef"
 	return string([]byte{d[(v>>4)&15], d[v&15]})
